@@ -9,8 +9,9 @@ while read -r id pkg tc variants; do
   [ -z "$id" ] && continue
   lc=$(echo "$id" | tr 'A-Z' 'a-z')
   for v in $(echo "$variants" | tr ',' ' '); do
-    flags=""; [ "$v" = race ] && flags="-race"
-    ( cd h && $tc test -c -vet=off $flags -tags verif -o "../.build/$lc.$tc.$v.test" "./$pkg" ) || rc=1
+    flags=""; g=$tc
+    case "$v" in race) flags="-race";; vt) g=go1.26.8;; vtrace) g=go1.26.8; flags="-race";; esac
+    ( cd h && $g test -c -vet=off $flags -tags verif -o "../.build/$lc.$v.test" "./$pkg" ) || rc=1
   done
 done < checks.tsv
 exit $rc
